@@ -208,7 +208,14 @@ def run_worker(mod, cases, rundir, tag, timeout):
     env["PYTHONHASHSEED"] = "0"
     env["VERIF_REPO"] = REPO
     env.update(getattr(mod, "IMPL_ENV", {}))
-    rc, out = sh([PY, os.path.join(HARNESS, "impl_worker.py"), getattr(mod, "MODNAME", mod.ID.lower()), fin, fout], timeout,
+    cmd = [PY]
+    if os.environ.get("VERIF_COVERAGE"):
+        # measurement aid (tools/coverage.sh), never used by a registered check: which lines of
+        # /repo's fibertree the implementation side of this property's streams executes
+        cmd += ["-m", "coverage", "run", "-p", "--data-file=" + os.path.join(os.environ["VERIF_COVERAGE"], ".coverage"),
+                "--include=" + os.path.join(REPO, "fibertree", "*")]
+        timeout *= 4
+    rc, out = sh(cmd + [os.path.join(HARNESS, "impl_worker.py"), getattr(mod, "MODNAME", mod.ID.lower()), fin, fout], timeout,
                  cwd=rundir, env=env)
     if rc == 0 and os.path.exists(fout):
         r = json.load(open(fout))
